@@ -10,7 +10,7 @@ from harness.props.vbsutil import read_all, read_pattern, render_end
 PROP = 'C10'
 RULE = ("IPM files of n records (quick n <= 6, thorough n <= 40) x every position k in 1..n x fault kind {truncated record, "
         "oversized length, undecodable MTI, unknown bitmap bit, bad field length, bad typed value, bad PDS content, bad ICC "
-        "content, record too short for MTI + bitmap} x {VBS, 1014} x {latin_1, cp500}, truncation at every byte of record k (n <= 6), records with space-padded elements, the reader consumed as one loop / next() then a loop / two loops / next() only: records 1..k-1 must be delivered, then MciIpmDataError with "
+        "content, record too short for MTI + bitmap} x {VBS, 1014} x {latin_1, cp500}, truncation at every byte of record k (n <= 6), records with space-padded elements, faulty records of 4500 / 5990 bytes, elements declaring more than the record holds, readers with a caller-supplied configuration (a bit the packaged configuration knows but the caller's does not), the reader consumed as one loop / next() then a loop / two loops / next() only: records 1..k-1 must be delivered, then MciIpmDataError with "
         "record_number == k and the raw bytes of record k (length prefix included) as context; the operator report must "
         "name record k. Non-trivial = k > 1 or a message-level fault; distinct = distinct (n, k, kind, format, codec)")
 TRUSTED = c01.TRUSTED + ["Model/Vbs.lean `ipmReadAll` models IpmReader.__next__ (error wrapping with record number and "
@@ -18,7 +18,14 @@ TRUSTED = c01.TRUSTED + ["Model/Vbs.lean `ipmReadAll` models IpmReader.__next__ 
 ASSUMPTIONS = c01.ASSUMPTIONS
 
 SHORT = [0]      # how many bitmap bytes the 'shortrec' record keeps (set per case)
-KINDS = ['truncated', 'oversized', 'badmti', 'unknownbit', 'badlen', 'badtyped', 'badpds', 'badicc', 'shortrec']
+KINDS = ['truncated', 'oversized', 'badmti', 'unknownbit', 'badlen', 'badtyped', 'badpds', 'badicc', 'shortrec',
+         'shortfixed', 'shortvar2', 'shortvar3', 'surplus']
+
+
+def custom_config():
+    """a caller-supplied configuration: the packaged one WITHOUT elements 3, 49 and 71 — a record using one of them has
+    an unknown bitmap bit for this reader, whatever the packaged configuration says"""
+    return {k: v for k, v in iu.pkg_config().items() if k not in ('3', '49', '71')}
 
 
 def bm(bits):
@@ -33,6 +40,17 @@ def good_record(i, codec):
         e('1240') + bm([2, 4, 48]) + e('104444333322' + f'{i * 7:012d}' + '0170023003ABC0158000'),
         # space-padded fixed elements and free text with runs of spaces (0x40 in EBCDIC: looks like block trailers)
         e('1240') + bm([2, 41, 42, 72]) + e('16' + '5' * 16 + 'T1      ' + 'MERCHANT       ' + '012' + 'A  B  C     '),
+    ]
+    return variants[i % len(variants)]
+
+
+def good_custom(i, codec):
+    """records the caller's configuration (custom_config) can read: no element 3, 49 or 71"""
+    e = lambda s: s.encode(codec)   # noqa: E731
+    variants = [
+        e('1240') + bm([2, 4]) + e('16' + '5' * 16 + f'{i * 7:012d}'),
+        e('1644') + bm([24]) + e('697'),
+        e('1240') + bm([2, 41, 42]) + e('16' + '5' * 16 + 'T1      ' + 'MERCHANT       '),
     ]
     return variants[i % len(variants)]
 
@@ -53,6 +71,18 @@ def bad_record(kind, codec):
         return (e('1240') + bm([2]))[:4 + SHORT[0]]
     if kind == 'badicc':
         return e('1240') + bm([55]) + e('003') + b'\x82\x00\x9a'
+    # elements that declare more than the record holds: a fixed element cut short, a 2-digit and a 3-digit prefix
+    # counting more bytes than follow; and a record with bytes left over after its last element
+    if kind == 'shortfixed':
+        return e('1240') + bm([2, 49]) + e('0212' + '97')
+    if kind == 'shortvar2':
+        return e('1240') + bm([2]) + e('19' + '5' * 16)
+    if kind == 'shortvar3':
+        return e('1240') + bm([2, 48]) + e('0212' + '050' + '0023003ABC0158000XXX')
+    if kind == 'surplus':
+        return e('1240') + bm([2]) + e('0212' + '7')
+    if kind == 'custombit':      # fine for the packaged configuration, unknown bit 49 for custom_config()
+        return e('1240') + bm([2, 49]) + e('0212' + '978')
     return good_record(1, codec)
 
 
@@ -60,8 +90,13 @@ def build(case):
     codec, n, k, kind = case['codec'], case['n'], case['k'], case['kind']
     SHORT[0] = case.get('keep', 0)
     recs = [good_record(i, codec) for i in range(n)]
+    if case.get('custom'):
+        recs = [good_custom(i, codec) for i in range(n)]
     if kind not in ('truncated', 'oversized'):
         recs[k - 1] = bad_record(kind, codec)
+    if case.get('pad'):
+        # a LARGE faulty record (the reader accepts up to the configured maximum): the context is all of it
+        recs[k - 1] = recs[k - 1] + common.pc(0, case['pad'] - len(recs[k - 1]))
     stream = b''
     raw_k = None
     for i, r in enumerate(recs, 1):
@@ -98,11 +133,12 @@ def impl_eval(case):
     from cardutil.cli import print_exception_details
     data, recs, raw_k = build(case)
     codec, k = case['codec'], case['k']
-    got, exc = read_pattern(mciipm.IpmReader(io.BytesIO(data), encoding=codec, blocked=bool(case['b'])),
+    kw = {'iso_config': custom_config()} if case.get('custom') else {}
+    got, exc = read_pattern(mciipm.IpmReader(io.BytesIO(data), encoding=codec, blocked=bool(case['b']), **kw),
                             case.get('pattern', 'for'))
     body = '|'.join(iu.dict_wire({kk: v for kk, v in r.items() if not kk.startswith('DE43_')}, sort=True) for r in got)
     why = None
-    expected_prefix = [iso8583.loads(r, encoding=codec) for r in recs[:k - 1]]
+    expected_prefix = [iso8583.loads(r, encoding=codec, **kw) for r in recs[:k - 1]]
     if got != expected_prefix:
         why = f'delivered {len(got)} records before the error; records 1..{k - 1} were expected unchanged'
     elif not isinstance(exc, mciipm.MciIpmDataError):
@@ -125,7 +161,15 @@ def impl_eval(case):
 
 def model_line(case):
     data, _, _ = build(case)
+    if case.get('custom'):
+        cid = c01.cfg_id({'cfg': custom_config()})
+        return [f'cfg.def\t{cid}\t{iu.cfg_wire(custom_config())}',
+                f"ipm.read\t{cid}\t{case['codec']}\t{case['b']}\t{c07.c03max()}\thex:{data.hex()}"]
     return f"ipm.read\tpkg\t{case['codec']}\t{case['b']}\t{c07.c03max()}\thex:{data.hex()}"
+
+
+def model_obs(case, resp):
+    return resp[-1] if isinstance(resp, list) else resp
 
 
 def explore(run, tier):
@@ -146,6 +190,15 @@ def explore(run, tier):
                         if k >= 2 and (n, kind) in ((6, 'badlen'), (3, 'truncated'), (6, 'oversized'), (3, 'badmti')):
                             for pattern in ('next-for', 'two-loops', 'next-only'):
                                 cases.append(dict(c, pattern=pattern))
+                        if kind in ('unknownbit', 'badmti', 'truncated', 'surplus') and n in (2, 6):
+                            big = dict(c, pad=[4500, 5990][k % 2])
+                            if kind == 'truncated':
+                                big['cut'] = big['pad'] - 7
+                            cases.append(big)
+                        if kind in ('unknownbit', 'badlen', 'truncated') and n in (1, 3):
+                            cases.append(dict(c, custom=1))
+                            if kind == 'unknownbit':
+                                cases.append(dict(c, custom=1, kind='custombit'))
                         if kind == 'shortrec':
                             for keep in (1, 8, 15):
                                 cases.append(dict(c, keep=keep))
